@@ -263,6 +263,11 @@ func (sdb *DbSqlite) verifyNodeHashes(fix bool) error {
 	// while reading child nodes. This may be expensive for a large DB, so
 	// we may want to eventually break this down into transactions for each node
 	// and its children.
+	// The write lock keeps point writes from changing hashes between the time
+	// they are read and the time a fix is written.
+	sdb.writeLock.Lock()
+	defer sdb.writeLock.Unlock()
+
 	tx, err := sdb.db.Begin()
 	if err != nil {
 		return err
@@ -276,7 +281,7 @@ func (sdb *DbSqlite) verifyNodeHashes(fix bool) error {
 	}
 
 	// get root node to kick things off
-	rootNodes, err := sdb.getNodes(nil, "root", "all", "", true)
+	rootNodes, err := sdb.getNodes(tx, "root", "all", "", true)
 
 	if err != nil {
 		rollback()
@@ -293,7 +298,7 @@ func (sdb *DbSqlite) verifyNodeHashes(fix bool) error {
 	var verify func(node data.NodeEdge) error
 
 	verify = func(node data.NodeEdge) error {
-		children, err := sdb.getNodes(nil, node.ID, "all", "", true)
+		children, err := sdb.getNodes(tx, node.ID, "all", "", true)
 		if err != nil {
 			return err
 		}
